@@ -318,6 +318,9 @@ func runC04(c *core.Ctx) {
 	checkFreshValueBuffers(c, "R4.10", relChunked)
 	c.Rule("R4.11", "append/prepend store the assembled value under the flags recorded in the metadata they read and under the command's own key", 1)
 	checkRestoreKeepsFlags(c, "R4.11")
+	c.Rule("R4.12", "flags travel through the metadata record unchanged: every record written carries the command's own flags or those of the record just read; the fetch helpers return the decoded field, or - if they take the backend item's flags instead - every write of the metadata entry stores the same flags as item flags", 4)
+	checkFlagsThroughMetadata(c, "R4.12")
+	c.Share(map[string]string{"R16.4": "R4.13"}, runC16) // a chunk count that differs between metadata and chunk writer makes some lengths unreadable or leaves orphans
 }
 
 func runR43(c *core.Ctx, prods map[*ssa.Function]keyProducer) {
